@@ -84,6 +84,7 @@ impl Args {
 }
 
 pub fn machinery_error(msg: &str) -> ! {
+    crate::util::cleanup_scratch();
     eprintln!("MACHINERY-ERROR: {msg}");
     println!("MACHINERY-ERROR: {msg}");
     std::process::exit(2)
@@ -489,6 +490,7 @@ impl Run {
         for m in &self.machinery {
             println!("MACHINERY-ERROR: {m}");
         }
+        crate::util::cleanup_scratch();
         if unlisted > 0 {
             std::process::exit(1);
         }
